@@ -156,10 +156,10 @@ Qed.
 Lemma fun_exit_loop_exit o : is_fun_exit o = false -> is_loop_exit o = false.
 Proof. destruct o; cbn; congruence. Qed.
 
-Theorem for_absorbs st env xs coll body what :
-  is_loop_exit (snd (for_sem ev st env xs coll body what)) = false.
+Lemma for_core_absorbs st env xs coll body what :
+  is_loop_exit (snd (for_core ev st env xs coll body what)) = false.
 Proof.
-  unfold for_sem. destruct (ev st env coll) as [st1 o].
+  unfold for_core. destruct (ev st env coll) as [st1 o].
   destruct (operand o) as [c|bad] eqn:Eo.
   - destruct (for_items st1 c what) as [[[st2 items]|]|bad] eqn:Ef.
     + pose proof (loop_items_absorbs st2 env xs items body vtrue) as A.
@@ -168,6 +168,13 @@ Proof.
     + destruct c; try reflexivity. destruct xs; [reflexivity|]. apply loop_chars_absorbs.
     + cbn [snd]. apply fun_exit_loop_exit. eapply for_items_bad. exact Ef.
   - cbn [snd]. apply fun_exit_loop_exit. eapply operand_bad. exact Eo.
+Qed.
+
+Theorem for_absorbs st env xs coll body what :
+  is_loop_exit (snd (for_sem ev st env xs coll body what)) = false.
+Proof.
+  unfold for_sem. pose proof (for_core_absorbs st env xs coll body what) as A.
+  destruct (for_core ev st env xs coll body what) as [st1 r]. exact A.
 Qed.
 
 (* the loop visits the items in order; the body's outcome decides what happens next *)
